@@ -105,6 +105,34 @@ func genC08(t *rapid.T) c08Case {
 		c.Trees[i] = tr
 	}
 	c.Cfg.StoreAbsolutePath = false
+	if !c.MultiRoot && rapid.IntRange(0, 4).Draw(t, "gitignore_nest") == 0 {
+		// ignore rules of a directory that holds, some levels down, a directory of its own name
+		// without rules of its own, and entries the rules match on both sides of it in the
+		// listing: whether they are ignored must not depend on when the walk comes back up
+		n := rapid.SampledFrom([]string{"gg", "src", "node_modules"}).Draw(t, "nest_name")
+		mid := rapid.SampledFrom([]string{"m", "m/k", n}).Draw(t, "nest_mid")
+		pat := rapid.SampledFrom([]string{"z.txt", "*.txt", "zz/"}).Draw(t, "nest_pattern")
+		extra := []memfs.Node{
+			{Path: n, Kind: memfs.KDir},
+			{Path: n + "/.gitignore", Kind: memfs.KFile, Content: pat + "\n"},
+			{Path: n + "/" + mid + "/" + n, Kind: memfs.KDir},
+			{Path: n + "/" + mid + "/" + n + "/z.txt", Kind: memfs.KFile, Content: "1"},
+			{Path: n + "/" + mid + "/" + n + "/keep.lock", Kind: memfs.KFile, Content: "2"},
+			{Path: n + "/z.txt", Kind: memfs.KFile, Content: "3"},
+			{Path: n + "/a.txt", Kind: memfs.KFile, Content: "4"},
+			{Path: n + "/zz", Kind: memfs.KDir},
+			{Path: n + "/zz/z.txt", Kind: memfs.KFile, Content: "5"},
+			{Path: n + "/" + mid + "/z.txt", Kind: memfs.KFile, Content: "6"},
+		}
+		have := map[string]bool{}
+		for _, nd := range c.Trees[0].Nodes {
+			have[nd.Path] = true
+		}
+		if !have[n] {
+			c.Trees[0] = memfs.Tree{Nodes: append(append([]memfs.Node(nil), c.Trees[0].Nodes...), extra...)}.Normalize()
+			c.Cfg.UseGitignore = true
+		}
+	}
 	if c.MultiRoot {
 		c.RealFS = rapid.Bool().Draw(t, "real_fs")
 		c.Cfg.StoreAbsolutePath = rapid.Bool().Draw(t, "store_abs")
